@@ -163,6 +163,11 @@ def writer_behaviour(fn: ast.FunctionDef) -> str:
     return "Overwrite"
 
 
+def _guarded_by_overwrite(fn: ast.FunctionDef) -> bool:
+    tests = [st for st in fn.body if isinstance(st, ast.If) and _has_exists_call(st.test)]
+    return bool(tests) and isinstance(tests[0].test, ast.BoolOp)
+
+
 def old_ext(fn: ast.FunctionDef) -> str:
     exts = set()
     for n in ast.walk(fn):
@@ -322,8 +327,18 @@ def old_items_and_merge(repo: Path) -> tuple[bool, bool]:
     tree = parse(repo, "pyxel/outputs/outputs.py")
     fn = find_func(tree, "save_to_file", cls="Outputs")
     outer = [n for n in fn.body if isinstance(n, ast.For)]
-    if len(outer) != 1 or not (isinstance(outer[0].iter, ast.Attribute) and _is_name(outer[0].iter.value, "self")
-                               and outer[0].iter.attr == "save_data_to_file" and _is_name(outer[0].target, "dct")):
+    if len(outer) != 1:
+        fail(fn, "Outputs.save_to_file must have one top-level for loop")
+    flat = ("item for dct in self.save_data_to_file for item in dct.items()",
+            "(k, v) for dct in self.save_data_to_file for k, v in dct.items()")
+    if isinstance(outer[0].iter, (ast.ListComp, ast.GeneratorExp)):
+        # for valid_name, format_list in [item for dct in self.save_data_to_file for item in dct.items()]:
+        if ast.unparse(outer[0].iter)[1:-1] not in flat \
+                or ast.unparse(outer[0].target) != "(valid_name, format_list)":
+            fail(outer[0], "unknown flattened loop over the items of save_data_to_file")
+        return True, _old_store(outer[0])
+    if not (isinstance(outer[0].iter, ast.Attribute) and _is_name(outer[0].iter.value, "self")
+            and outer[0].iter.attr == "save_data_to_file" and _is_name(outer[0].target, "dct")):
         fail(fn, "Outputs.save_to_file must loop `for dct in self.save_data_to_file`")
     first = [n for n in ast.walk(outer[0]) if isinstance(n, ast.Assign) and isinstance(n.targets[0], ast.Tuple)
              and any(isinstance(e, ast.Starred) for e in n.targets[0].elts)
@@ -341,6 +356,11 @@ def old_items_and_merge(repo: Path) -> tuple[bool, bool]:
         scope = inner[0]
     else:
         fail(outer[0], "Outputs.save_to_file: neither the first-item shape nor a loop over dct.items()")
+    return all_items, _old_store(scope)
+
+
+def _old_store(scope) -> bool:
+    """True if the per-bucket result is merged into all_filenames, False if it replaces the entry."""
     stores = []
     for n in ast.walk(scope):
         if isinstance(n, ast.Assign) and isinstance(n.targets[0], ast.Subscript) \
@@ -356,10 +376,10 @@ def old_items_and_merge(repo: Path) -> tuple[bool, bool]:
     if kind == "replace":
         if text != "all_filenames[valid_name] = partial_filenames":
             fail(scope, f"unknown store {text}")
-        return all_items, False
+        return False
     if text != "all_filenames.setdefault(valid_name, {}).update(partial_filenames)":
         fail(scope, f"unknown store {text}")
-    return all_items, True
+    return True
 
 
 def dask_snapshot(repo: Path) -> bool:
@@ -422,7 +442,7 @@ def translate(repo: Path) -> str:
     for w in NEW_WRITERS:
         fn = find_func(utils, w)
         b = writer_behaviour(fn)
-        if ow and b == "Skip":
+        if ow and b in ("Skip", "Raise") and _guarded_by_overwrite(fn):
             b = "Overwrite"          # the existence test is disabled by overwrite=True
         writers.append((w, b))
     new_tab = new_dispatch(find_func(utils, "save_to_files"))
